@@ -15,7 +15,35 @@ COMPONENTS_STREAM = {
     'stub': ['unit operations (tasks issuing public-API calls)', 'scheduler / PRNG'],
 }
 
+COMPONENTS_SPARSE = {
+    'real': ['thermosteam.base.sparse (SparseVector, SparseLogicalVector, SparseArray, sparse, sparse_vector, '
+             'sparse_array, nonzero_items)'],
+    'stub': ['nothing of the library is stubbed; reference model = NumPy arrays (one 1-d mirror cell per stored '
+             'row, shared between aliasing objects)', 'scheduler / PRNG'],
+}
+
 PROPS = {
+    'C09': {
+        'engine': 'sparsesim',
+        'quick': {'runs': 60000, 'steps': (10, 30), 'deadline_s': 60, 'chunk': 100, 'seed': 9},
+        'thorough': {'runs': 1500000, 'steps': (10, 40), 'deadline_s': 600, 'chunk': 500, 'seed': 1009},
+        'rule': ('one evaluation = one simulated history of 10-30 operations on a universe of 3-8 live sparse '
+                 'objects (vectors, logical vectors, 2-d arrays up to 3 x 6, aliasing rows included), every '
+                 'step checked against NumPy mirrors on ALL live objects; distinct = distinct abstract '
+                 'universe states (per object: kind, dtype, shape, sign pattern of the entries, read-only '
+                 'flags, alias structure) seen after a step; non-trivial = at least one write / aliasing '
+                 'operation executed'),
+        'assumptions': ['NumPy is the reference; shapes compared modulo leading length-1 axes; divisors '
+                        'containing 0 and in-place forms NumPy itself refuses are not generated; steps with '
+                        'non-finite NumPy results are executed but only the representation invariant is '
+                        'checked; multi-term sums are compared within a rounding bound (summation order is '
+                        'unspecified in NumPy)',
+                        'index / operand forms outside what tests/test_sparse.py exercises (negative and '
+                        'out-of-range indices, boolean mask combined with a non-slice index, 0-d bool '
+                        'ndarray operands, column-broadcast (m,1) operands, mixed bool/float lists, zero-row '
+                        'arrays) are outside the generated domain', 'seeded sampling, not exhaustive'],
+        'components': COMPONENTS_SPARSE,
+    },
     'C18': {
         'engine': 'netsim',
         'quick': {'runs': 6000, 'steps': (20, 60), 'deadline_s': 50, 'chunk': 100, 'seed': 18},
@@ -53,5 +81,5 @@ PROPS = {
                         'come from Chemical / mixture model objects called directly (not through the stream)',
                         'seeded sampling, not exhaustive'],
         'components': COMPONENTS_STREAM,
-    } for p in ('C01', 'C10', 'C11', 'C14')},
+    } for p in ('C01', 'C10', 'C11', 'C12', 'C13', 'C14')},
 }
